@@ -401,8 +401,14 @@ def judge_e2e(case: Dict[str, Any], out: Dict[str, Any], model_flags: Optional[D
     for call in out.get("calls", []):
         op = call["op"]
         sent = call.get("sent")
-        if call.get("outcome") == "no-method" or sent is None:
-            res.count("e2e:no-request-captured (not judged)")
+        if call.get("outcome") == "no-method":
+            # no generated method carries operation_name=<this operation>: nothing can be "sent with an operationName
+            # naming its single operation"
+            fail("no-client-method-for-operation", trig[op], f"{op}: methods carry operation names {sorted(out.get('methods', {}))[:6]}", op)
+            continue
+        if sent is None:
+            res.count("e2e:no-request-captured")
+            fail("no-request-sent", trig[op], f"{op}: {call.get('exception')}: {call.get('message', '')[:160]}", op)
             continue
         res.count("e2e:operations-judged")
         bad = judge_text(auth, op, sent.get("query"), sent.get("operationName"))
@@ -1287,7 +1293,8 @@ def replay(ctx: Ctx, payload: Dict[str, Any]) -> int:
     case = {k: inp[k] for k in ("sdl", "queries", "config", "calls", "label") if k in inp}
     if EXTRACT_PLUGIN in ((case.get("config") or {}).get("plugins") or []):
         case["want"] = ["sources"]
-    per = run_e2e_cases(ctx, [case], res, None, "replay")
+    st = LeanStatus(True, (common.LEAN / ".lake/build/bin" / common.driver_name(PROP)).exists(), "", [])  # droppedSpread needs the model
+    per = run_e2e_cases(ctx, [case], res, st, "replay")
     for f in per[0]:
         print(f"FAIL {f.signature} trigger={f.trigger}: {f.detail}")
     if not per[0]:
